@@ -20,4 +20,9 @@ def run(ctx):
     # the start-up executed INSIDE the model (Concrete.startL over the code-level models, hierarchy built by Build.hier) against the real
     # initializeSolution(): 2 and 3 levels, every FMG cycle type, 0..2 FMG iterations, plain and extrapolated (shares the stage with C10)
     ctx.pipe([hs, "concrete", "9" if ctx.tier == "quick" else "60"], "concrete", label="fmg-startup-in-the-model")
+    # "nested iteration from the coarsest level": the start-up can only be as good as the level right-hand sides and operators setup()
+    # provides for it — the level right-hand sides against the model (every extrapolation mode x FMG, 2..4 levels) and the decision table
+    # of setup() (which levels get a right-hand side, which operators) on real traces
+    ctx.pipe([hs, "rhs", "12" if ctx.tier == "quick" else "150"], "rhs", label="level-right-hand-sides")
+    ctx.pipe([hs, "setup", "40" if ctx.tier == "quick" else "150"], "setup", label="setup-provides")
     ctx.assumptions += ["'already has discretisation-level accuracy' is an accuracy statement (see C02) and is not proved"]
